@@ -198,7 +198,42 @@ def pow2(E, st, n):
     st.fact(z3.Implies(n == 0, t == 1))
     st.fact(z3.Implies(n >= 1, t == 2 * POW2(n - 1)))
     st.fact(z3.Implies(n >= 8, t == 256 * POW2(n - 8)))
+    if E.options.get('int_lemmas') is not None:
+        _pow2_order(E, st, n, t)
     return t
+
+
+IPOW = z3.Function('ipow', INT, INT, INT)            # b**e for symbolic e >= 0
+
+
+def ipow(E, st, b, e):
+    """b**e for a symbolic exponent e >= 0: uninterpreted, with the ground instances of its recursive definition"""
+    t = IPOW(b, e)
+    st.fact(z3.Implies(e == 0, t == 1))
+    st.fact(z3.Implies(e == 1, t == b))
+    st.fact(z3.Implies(e >= 1, t == b * IPOW(b, e - 1)))
+    st.fact(z3.Implies(z3.And(b == 0, e >= 1), t == 0))
+    st.fact(z3.Implies(b == 1, t == 1))
+    st.fact(z3.Implies(z3.And(b >= 0, e >= 0), t >= 0))
+    return t
+
+
+def _pow2_order(E, st, n, t):
+    """opt-in (contract option int_lemmas=[constant exponents]): ground instances of the strict monotonicity of 2**n
+    (0 <= a < b ==> 2 * 2**a <= 2**b) between this application and every other application / listed constant met in
+    the proof of the function.  Each instance is a true arithmetic fact, whatever the arguments are."""
+    reg = E.__dict__.setdefault('_pow2_terms', {})
+    if not reg:
+        for c in E.options.get('int_lemmas') or ():
+            reg[('const', c)] = (z3.IntVal(c), z3.IntVal(2 ** c))
+    key = n.get_id()
+    reg[key] = (n, t)
+    for k2, (m, w) in list(reg.items()):
+        if k2 == key:
+            continue
+        st.fact(z3.Implies(z3.And(n >= 0, n < m), 2 * t <= w))
+        st.fact(z3.Implies(z3.And(m >= 0, m < n), 2 * w <= t))
+        st.fact(z3.Implies(n == m, t == w))
 
 
 def int_binop(E, op, a, b, st, sink):
@@ -246,7 +281,10 @@ def int_binop(E, op, a, b, st, sink):
                 raise Unsupported('possibly negative symbolic exponent')
             yield ok, mk_int(pow2(E, ok, k * y))
         else:
-            raise Unsupported('symbolic exponent')
+            neg, ok = E.split(st, y < 0)
+            if neg is not None:
+                raise Unsupported('possibly negative symbolic exponent (float result)')
+            yield ok, mk_int(ipow(E, ok, x, y))
     elif isinstance(op, ast.LShift):
         if isinstance(b, int):
             if b < 0:
@@ -299,6 +337,11 @@ def int_binop(E, op, a, b, st, sink):
             return
         # both symbolic: bit-vector mode with a "no bit is lost" side obligation
         W = E.bv_width
+        if W is None and E.options.get('bitops') == 'uf':
+            # opt-in: python's & | ^ on two unbounded symbolic integers (infinite two's complement) as uninterpreted
+            # symbols with a few ground facts; contracts then speak of bitand()/bitor()/bitxor() of the same operands
+            yield st, mk_int(bitop_value(E, st, type(op), x, y))
+            return
         if W is None:
             raise Unsupported('bitwise operator on two symbolic integers (no bv_width in contract)')
         lim = z3.IntVal(1 << W)
@@ -308,6 +351,32 @@ def int_binop(E, op, a, b, st, sink):
         yield st, mk_int(z3.BV2Int(r))
     else:
         raise Unsupported('int op ' + type(op).__name__)
+
+
+BITOPS = {ast.BitAnd: z3.Function('bitand', INT, INT, INT), ast.BitOr: z3.Function('bitor', INT, INT, INT),
+          ast.BitXor: z3.Function('bitxor', INT, INT, INT)}
+
+
+def bitop_value(E, st, opt, x, y):
+    f = BITOPS[opt]
+    t = f(x, y)
+    st.fact(t == f(y, x))
+    nonneg = z3.And(x >= 0, y >= 0)
+    if opt is ast.BitAnd:
+        st.fact(z3.Implies(nonneg, z3.And(t >= 0, t <= x, t <= y)))
+        st.fact(z3.Implies(y == 0, t == 0))
+        st.fact(z3.Implies(y == 1, t == x % 2))
+        st.fact(z3.Implies(x == y, t == x))
+    elif opt is ast.BitOr:
+        st.fact(z3.Implies(nonneg, z3.And(t >= x, t >= y, t <= x + y)))
+        st.fact(z3.Implies(y == 0, t == x))
+        st.fact(z3.Implies(y == 1, t == x - x % 2 + 1))
+        st.fact(z3.Implies(x == y, t == x))
+    else:
+        st.fact(z3.Implies(nonneg, z3.And(t >= 0, t <= x + y)))
+        st.fact(z3.Implies(y == 0, t == x))
+        st.fact(z3.Implies(x == y, t == 0))
+    return t
 
 
 def _and_const(x, m):
@@ -338,6 +407,27 @@ def _clamp(i, n):
     return z3.If(i < 0, z3.If(i + n < 0, 0, i + n), z3.If(i > n, n, i))
 
 
+def reverse_value(E, st, zs):
+    """s[::-1]: explicit for short constant lengths, otherwise uninterpreted with the ground facts that define reversal
+    at this instance (length, involution, first/last element, big-endian value of the reverse == little-endian value)"""
+    n = z3.simplify(z3.Length(zs))
+    if z3.is_int_value(n) and n.as_long() <= 16:
+        k = n.as_long()
+        if k == 0:
+            return z3.Empty(BYTES)
+        units = [z3.Unit(zs[i]) for i in range(k - 1, -1, -1)]
+        return units[0] if k == 1 else z3.Concat(*units)
+    from . import models
+    t = REV(zs)
+    ln = z3.Length(zs)
+    st.fact(z3.Length(t) == ln)
+    st.fact(REV(t) == zs)
+    st.fact(z3.Implies(ln >= 1, z3.And(t[0] == zs[ln - 1], t[ln - 1] == zs[0])))
+    st.fact(models.LE(t) == models.BE(zs))
+    st.fact(models.BE(t) == models.LE(zs))
+    return t
+
+
 def slice_bytes(E, base, sl, st, sink):
     zs = zbytes(base)
     kind = base.kind if isinstance(base, SBytes) else 'bytes'
@@ -345,9 +435,7 @@ def slice_bytes(E, base, sl, st, sink):
     step = sl.step
     if step is not None and step != 1:
         if step == -1 and sl.start is None and sl.stop is None:
-            t = REV(zs)
-            st.fact(z3.Length(t) == n)
-            return mk_bytes(t, kind)
+            return mk_bytes(reverse_value(E, st, zs), kind)
         raise Unsupported('slice step')
     for b in (sl.start, sl.stop):
         if b is not None and not is_intlike(b):
@@ -399,6 +487,16 @@ def subscript(E, base, idx, st, sink):
                 yield st, h.items[idx]
             else:
                 sink.append(('raise', st, exc(KeyError, idx)))
+            return
+        if h.kind == 'acc':
+            # accumulator abstraction (count, last, joined): only t[-1]
+            if not (isinstance(idx, int) and not isinstance(idx, bool) and idx == -1):
+                raise Unsupported('accumulator list: only [-1] is supported')
+            empty, ok = E.split(st, zint(h.items[0]) <= 0)
+            if empty is not None:
+                sink.append(('raise', empty, exc(IndexError, 'list index out of range')))
+            if ok is not None:
+                yield ok, ok.heap[base.oid].items[1]
             return
         if h.kind == 'bytearray':
             for s1, v in subscript(E, h.items if not isinstance(h.items, bytes) else h.items, idx, st, sink):
